@@ -456,7 +456,9 @@ class HTTPConnection(_HTTPConnection):
                 if isinstance(chunk, str):
                     chunk = chunk.encode("utf-8")
                 if chunked:
-                    self.send(b"%x\r\n%b\r\n" % (len(chunk), chunk))
+                    # The chunk size counts bytes; len() of a buffer with multi-byte
+                    # items (array.array("H"), memoryview.cast("I")) counts items.
+                    self.send(b"%x\r\n%b\r\n" % (memoryview(chunk).nbytes, chunk))
                 else:
                     self.send(chunk)
 
